@@ -46,3 +46,31 @@ Print Assumptions C08_next_is_future.
 
 Example C08_hyp_sat : get_marker_versions 85 85 65537 = Some ([16; 64; 80; 84], [86; 88; 96; 128; 256; 65536]).
 Proof. vm_compute. reflexivity. Qed.
+
+(* ------------------------------------------------------------------ at the directory level *)
+From Akd Require Import NodeLabel NodeLabelFacts Hashing Tree TreeFacts Binding Directory Verify DirSound DirRefine.
+From Akd Require DirSoundReach.
+(* Under the epoch hash of ANY reachable state of the directory the two verifiers cannot disagree
+   (K1 concerns roots of trees no honest directory builds): a verifying lookup proof's result is the
+   first entry of a verifying complete history's result.  Premises as for C06/C07 at this level. *)
+Theorem C08_verifiers_agree_in_every_reachable_state :
+  forall (cfg : config) (Bad : Prop), Binding cfg Bad ->
+  forall (ck : bytes) (vrf_label : bytes -> bool -> N -> option nlabel),
+  (forall l f v nl, vrf_label l f v = Some nl -> WF nl /\ canonical nl = true /\ llen nl = 256) ->
+  (forall l f v l' f' v' nl, vrf_label l f v = Some nl -> vrf_label l' f' v' = Some nl -> l = l' /\ f = f' /\ v = v') ->
+  forall (vrf_check : bytes -> bytes -> bytes -> option bytes) (pk l : bytes) (F : bool -> N -> nlabel),
+  (forall f v, llen (F f v) = 256 /\ WF (F f v) /\ LW (F f v)) ->
+  (forall f v nl, vrf_label l f v = Some nl -> nl = F f v) ->
+  (forall f v l' f' v', v < 2 ^ 64 -> vrf_label l' f' v' = Some (F f v) -> l' = l /\ f' = f /\ v' = v) ->
+  (forall proof f v out, v < 2 ^ 64 -> vrf_check pk proof (label_input_hash cfg l f v) = Some out -> NL out 256 = F f v) ->
+  (forall key lb ver value, Len64 (c_commitment_nonce cfg key lb ver value)) ->
+  D32 (c_stale_value cfg) ->
+  forall reqs,
+  let st := run_publishes cfg ck vrf_label dir_new reqs in
+  (forall s, In s (d_states st) -> Len64 (vr_value s)) -> d_epoch st < 2 ^ 64 ->
+  forall E p r hp rs, lp_ok p -> hp_ok hp -> d_epoch st <= E -> E < 2 ^ 64 ->
+  lookup_verify cfg vrf_check pk (snd (epoch_hash cfg st)) E l p = Some r ->
+  key_history_verify cfg vrf_check pk (snd (epoch_hash cfg st)) E l hp HComplete false = Some rs ->
+  (exists rest, rs = r :: rest) \/ Bad.
+Proof. exact DirSoundReach.lookup_history_agree_reachable. Qed.
+Print Assumptions C08_verifiers_agree_in_every_reachable_state.
